@@ -113,6 +113,9 @@ bool check_truthful(Case &c, const CallSpec &cs, const Csr<S> &A, const std::vec
     long double rel, flo;
     if (cs.cfg.explicit_res) { rel = cs.cfg.left ? std::max<long double>(1e-6L, 100.0L * u * K.kappa_call()) : 1e-6L; flo = dr / R.nf * leftamp; }
     else { rel = 1e-3L; flo = 100.0L * u * (iters + 1) * K.kappa_call() * (1.0L + K.normA * nx0 / R.nf) * leftamp; }
+    // A call whose conditioning makes the recursive-residual floor exceed 1e-3 (in units of ||f||, x0 = 0) is outside what the
+    // statement can say anything about ("rounding bounded by the conditioning of the call"): not evaluated, counted.
+    if (!cs.cfg.explicit_res && !(100.0L * u * (iters + 1) * K.kappa_call() < 1e-3L)) { obs_sum("recursive_checks_skipped_ill_conditioned_call"); return ok; }
     long double bound = std::max(rel * tv, flo), diff = fabsl((long double)res - tv);
     if (!(std::isfinite((double)bound))) { fprintf(stderr, "c01 oracle: non-finite bound (kappa=%g)\n", K.kappa()); exit(3); }
     obs_max(std::string("max_mismatch_over_bound_") + (cs.cfg.explicit_res ? "explicit" : "recursive") + (cs.cfg.left ? "_left" : "_right"), (double)(diff / bound));
